@@ -10,6 +10,7 @@ from .. import lingen as L
 
 PROP = "C06"
 PROP_V = "theories/props/C06.v"
+MODEL_AREAS = ('front', 'tc', 'lin')
 
 
 def ok(o):
@@ -22,7 +23,6 @@ def run(b, ps, tier, seed):
     violations, known, cov = L.run_property(b, PROP, tier, seed, L.c06_targeted(), "indoracle", ok, known_prefixes=("K1",))
     return {"violations": violations, "known": known, "coverage": cov,
             "assumptions": ["the theorem is about the Gallina model Tc.v/TcTop.v; it speaks about /repo through the verdict correspondence run on every check",
-                            "premise env_moded_b (mode recorded for a type definition = mode of its body) holds of parser output: evaluated on every parsed program of the run (flag moded= of the oracle line), not proved",
                             "K1: the root sequent of a top-level prc declaration is excluded from the theorem (the implementation does not check it)",
                             "the oracle evaluates the statement on the accepted program returned by the checker MODEL when the model accepts (proved never to flag it: C06_oracle_agrees); when the model rejects, on the declared types completed by AddMissingModalities (Oracle.prepare)"],
             "trusted_extra": ["correspondence: probe tc (links /repo, -tags verif) vs extracted model on the same texts; extraction: ExtrOcamlBasic, ExtrOcamlString",
